@@ -76,6 +76,9 @@ def library_obligations():
     # strictly positive as soon as one term is positive (all terms non-negative):  P(k): j < k => S(f,k) >= f[j]
     j = z3.Int('j')
     out.append(('sum_ge_term.step', defs([f]) + [0 <= j, j <= k, f[k] >= 0, S(f, k) >= 0, z3.Implies(j < k, S(f, k) >= f[j])], S(f, k + 1) >= f[j]))
+    # telescoping (f[i] = g[i+1] - g[i] pointwise):  P(k): S(f,k) == g[k] - g[0]
+    out.append(('sum_telescope.base', defs([f]), S(f, 0) == g[0] - g[0]))
+    out.append(('sum_telescope.step', defs([f]) + [S(f, k) == g[k] - g[0], f[k] == g[k + 1] - g[k]], S(f, k + 1) == g[k + 1] - g[0]))
     return out
 
 
@@ -137,7 +140,13 @@ def fact(name, eng, st, args):
         a, jj = _arr(eng, st, args[0]), args[1]
         prem = z3.And(to_z3(le(0, jj)), to_z3(lt(jj, a.shape[0])), _all(a.shape[0], lambda i: to_z3(to_real(to_num(a.at(i)))) >= 0))
         return prem, S(lam_of(a), to_z3(a.shape[0])) >= to_z3(to_real(to_num(a.at(jj))))
+    if name == 'sum_telescope':  # sum_telescope(d, a): len(a) == len(d) + 1 and d[i] == a[i+1] - a[i]  ==>  SUM(d) == a[len(d)] - a[0]
+        d, a = _arr(eng, st, args[0]), _arr(eng, st, args[1])
+        n = d.shape[0]
+        prem = z3.And(to_z3(le(0, n)), to_z3(eq(a.shape[0], add(n, 1))),
+                      _all(n, lambda i: to_z3(to_real(to_num(d.at(i)))) == to_z3(to_real(to_num(a.at(i + 1)))) - to_z3(to_real(to_num(a.at(i))))))
+        return prem, S(lam_of(d), to_z3(n)) == to_z3(to_real(to_num(a.at(to_z3(n))))) - to_z3(to_real(to_num(a.at(0))))
     raise OutOfSubset('unknown sum fact %s' % name)
 
 
-FACTS = ['sum_const', 'sum_nonneg', 'sum_le', 'sum_eq', 'sum_add', 'sum_scale', 'sum_zero', 'sum_ge_term']
+FACTS = ['sum_telescope', 'sum_const', 'sum_nonneg', 'sum_le', 'sum_eq', 'sum_add', 'sum_scale', 'sum_zero', 'sum_ge_term']
